@@ -197,9 +197,7 @@ void parse_itmz_token_chain(mmd_engine * e, token * chain) {
 	token * walker = chain->next;				// Walk the existing tree
 	token * remainder;							// Hold unparsed tail of chain
 
-#ifndef NDEBUG
-	ITMZTrace(stderr, "parser >>");
-#endif
+	// ITMZTrace(stderr, "parser >>");
 
 	// Remove existing token tree
 	e->root = NULL;
